@@ -246,6 +246,7 @@ func (rs *rowStore) processInserts(offsetsBySource common.OffsetsBySource, stop 
 	rs.mx.Lock()
 	rs.memStore = ms
 	rs.mx.Unlock()
+	vhook("rs.ready", rs.t.Name)
 
 	flushInterval := rs.opts.maxFlushLatency
 	flushTimer := time.NewTimer(flushInterval)
